@@ -141,6 +141,19 @@ func (r *rewriter) file(f *ast.File) {
 				}
 			}
 		case *ast.CallExpr:
+			// fmt.Sprintf("%p", x): the address of an object as a string (map keys of the
+			// client's state dump). Addresses differ from run to run and would order the
+			// dump - and the lock operations of the MarshalJSON methods it calls -
+			// differently: replaced by a per-execution serial number of the object.
+			if se, ok := n.Fun.(*ast.SelectorExpr); ok && se.Sel.Name == "Sprintf" && len(n.Args) == 2 {
+				if pk, ok := se.X.(*ast.Ident); ok && pk.Name == "fmt" {
+					if lit, ok := n.Args[0].(*ast.BasicLit); ok && lit.Value == `"%p"` {
+						r.stats["sprintp"]++
+						n.Fun = r.vrt("Sprintp")
+						n.Args = n.Args[1:]
+					}
+				}
+			}
 			if id, ok := n.Fun.(*ast.Ident); ok && id.Name == "close" && len(n.Args) == 1 {
 				if _, isB := r.info.Uses[id].(*types.Builtin); isB {
 					r.stats["close"]++
